@@ -319,6 +319,12 @@ class ForceMatrix:
         if removed_index is not None:
             xres = np.insert(xres, removed_index, 1.)
 
+        # interfaces excluded by the angle limit carry no tension from this solve (nor from an earlier one)
+        for big_edge in self.frame.internal_big_edges:
+            if big_edge.get_vertices_ids() not in self.big_edges_to_use:
+                for e in big_edge.edges:
+                    self.frame.edges[e].tension = 0.0
+
         for index, element in enumerate(self.big_edges_to_use):
             edges_to_use = [list(set(self.frame.vertices[element[vid]].ownEdges) & 
                             set(self.frame.vertices[element[vid+1]].ownEdges))[0]
